@@ -196,7 +196,8 @@ func VerifHarness_C12_TextRoundTrip() {
 func VerifHarness_C12_TagOrder() {
 	// logical tag keys/values (no backslash, no newline: a trailing backslash has no escaped form)
 	k1, v1 := vBytes("k1", 1), vBytes("v1", vLen("v1len", 1, 2))
-	k2, v2 := vBytes("k2", 1), vBytes("v2", 1)
+	// the second key may be two bytes long, so that one key can be a proper prefix of the other
+	k2, v2 := vBytes("k2", vLen("k2len", 1, 2)), vBytes("v2", 1)
 	for _, s := range [][]byte{k1, v1, k2, v2} {
 		for _, c := range s {
 			vAssume(c != '\\' && c != '\n')
